@@ -36,6 +36,8 @@ table; the raw conditions may be kept in one attribute each; truth conversion th
 Round 8: mode / strategy pairings that _compile cannot produce are dropped.
 Round 9: stand-in callables for a control that was not declared are another encoding of the
 modes: no verdict.
+Round 9 (supplement): includes the n-ary call-form rule of C09 (every call form of a selector builds
+the same NaryExpr).
 """
 import ast
 
@@ -1011,6 +1013,15 @@ def check_evaluation_context(ctx):
             check_compile_expr(ctx, namedtuple_fields(ctx.repo.modules['deferred']['tree']))
         except Undecided as e:
             ctx.undecided('R9-postfix', ('bisturi/deferred.py', 'compile_expr'), 'compile_expr', str(e), 0, clause='c')
+    # Round 9 (supplement).  a selector written in any of its call forms -- chooses([..]), chooses({..}),
+    # chooses(a, b), chooses(k1=a, k2=b) -- builds the same NaryExpr from what the caller wrote (C09 a'):
+    # keyword names left as str no longer match a bytes-valued selector
+    if ctx.prop == 'C08':
+        from .c09 import check_nary_forms
+        try:
+            check_nary_forms(ctx)
+        except Undecided as e:
+            ctx.undecided('R9-nary-forms', ('bisturi/deferred.py', '_defer_method'), 'n-ary call forms', str(e), 0, clause='a')
     from .. import drivers as D
     from ..model import stmt_text
     for kind in ('pack', 'unpack'):
@@ -1032,7 +1043,42 @@ def check_evaluation_context(ctx):
             ctx.undecided('C08-field-table', ts['template'].func, st, 'cannot see that the block indexes pkt.get_fields() of the packet at hand', ts['template'].lineno, clause='j')
 
 
+def check_truth_before_length(ctx, rule='C08-normalisers'):
+    """Round 9 (supplement).  a field used as a condition is asked for its truth method before its
+    length method: an Optional field answers to both, and the value of an absent optional is None
+    -- ``truth(None)`` is False, ``len(None)`` raises.  In the function that turns a field into a
+    boolean expression, the sequence of method names tried in order names the truth method
+    (``__nonzero__`` / ``__bool__`` -- whichever the deferred operators install) before ``__len__``"""
+    repo = ctx.repo
+    fi = repo.module_funcs.get(('structural_fields', 'convert_a_field_raw_condition_into_a_boolean_unary_expression'))
+    if fi is None:
+        return
+    # the name under which the truth operator is installed (deferred.py: truth -> 'nonzero')
+    installed = set()
+    dt = repo.modules.get('deferred')
+    if dt is not None:
+        for c in ast.walk(dt['tree']):
+            if isinstance(c, ast.Constant) and c.value in ('nonzero', 'bool'):
+                installed.add('__%s__' % c.value)
+    for n in ast.walk(fi.node):
+        if isinstance(n, (ast.Tuple, ast.List)) and n.elts and all(isinstance(x, ast.Constant) and isinstance(x.value, str) for x in n.elts):
+            names = [x.value for x in n.elts]
+            if '__len__' not in names:
+                continue
+            truth = [i for i, x in enumerate(names) if x in installed]
+            st = 'truth methods tried in order: %s' % (names,)
+            if not installed:
+                ctx.undecided(rule, fi, st, 'cannot see under which name the truth operator is installed', n.lineno, clause='g')
+            elif not truth:
+                ctx.violation(rule, fi, st, 'the truth method the deferred operators install (%s) is not asked for at all' % sorted(installed), n.lineno, clause='g', witness=True)
+            elif min(truth) > names.index('__len__'):
+                ctx.violation(rule, fi, st, 'the length is asked for before the truth: an Optional field answers to both, and for an absent optional (value None) len(None) raises where truth(None) is False -- a field conditioned on an optional field no longer parses what it packed', n.lineno, clause='g', witness=True)
+            else:
+                ctx.holds(rule, fi, st, 'truth before length', n.lineno, clause='g')
+
+
 def check(ctx):
+    check_truth_before_length(ctx)
     repo = ctx.repo
     sq, op, rf = repo.cls('Sequence'), repo.cls('Optional'), repo.cls('Ref')
     for ci, names in ((sq, ('unpack', 'pack')), (op, ('unpack', 'pack'))):
